@@ -86,8 +86,12 @@ def rCB (c : Config) : List (Bool × Nat) :=
   [(c.cbOn && decide (c.cbFailure ≤ 0), 29), (c.cbOn && decide (c.cbSuccess ≤ 0), 30),
    (c.cbOn && decide (c.cbTimeout ≤ 0), 31), (c.cbOn && decide (c.cbInterval ≤ 0), 32),
    (c.cbOn && decide (c.cbMax < 0), 33), (c.cbOn && decide (c.cbMax > 0) && decide (c.cbSuccess > c.cbMax), 34)]
+/-- a ServeMux pattern the metrics server can register next to its own `/health` -/
+def startsSlash (s : String) : Bool := s.toList.head? == some '/'
+
 def rMetrics (c : Config) : List (Bool × Nat) :=
-  [(c.metOn && portBad c.metPort, 35), (c.metOn && c.metPath == "", 36)]
+  [(c.metOn && portBad c.metPort, 35), (c.metOn && c.metPath == "", 36),
+   (c.metOn && !startsSlash c.metPath, 58), (c.metOn && c.metPath == "/health", 59)]
 def rAdmin (c : Config) : List (Bool × Nat) := [(c.admOn && portBad c.admPort, 37)]
 def rLog (c : Config) : List (Bool × Nat) :=
   [(c.logLevel != "" && !logLevels.contains c.logLevel, 38),
@@ -133,7 +137,8 @@ def DRL (c : Config) : Prop := c.rlOn = true → 0 < c.rlMax ∧ 0 < c.rlRefill
 def DCB (c : Config) : Prop :=
   c.cbOn = true → 0 < c.cbFailure ∧ 0 < c.cbSuccess ∧ 0 < c.cbTimeout ∧ 0 < c.cbInterval ∧ 0 ≤ c.cbMax ∧
     (0 < c.cbMax → c.cbSuccess ≤ c.cbMax)
-def DMetrics (c : Config) : Prop := c.metOn = true → (1 ≤ c.metPort ∧ c.metPort ≤ 65535) ∧ c.metPath ≠ ""
+def DMetrics (c : Config) : Prop :=
+  c.metOn = true → (1 ≤ c.metPort ∧ c.metPort ≤ 65535) ∧ c.metPath ≠ "" ∧ startsSlash c.metPath = true ∧ c.metPath ≠ "/health"
 def DAdmin (c : Config) : Prop := c.admOn = true → 1 ≤ c.admPort ∧ c.admPort ≤ 65535
 def DLog (c : Config) : Prop :=
   (c.logLevel = "" ∨ c.logLevel ∈ logLevels) ∧ (c.logFormat = "" ∨ c.logFormat ∈ logFormats)
